@@ -161,10 +161,16 @@ def fold_str_expr(e: ast.AST, env: dict):
         if e.id in env:
             return env[e.id]
         raise Unfoldable(e.id)
+    if isinstance(e, ast.Attribute) and ast.unparse(e) in env:
+        return env[ast.unparse(e)]
     if isinstance(e, ast.Tuple):
         return tuple(fold_str_expr(x, env) for x in e.elts)
+    if isinstance(e, ast.List):
+        return [fold_str_expr(x, env) for x in e.elts]
     if isinstance(e, ast.UnaryOp) and isinstance(e.op, ast.Not):
         return not fold_str_expr(e.operand, env)
+    if isinstance(e, ast.UnaryOp) and isinstance(e.op, ast.USub) and isinstance(e.operand, ast.Constant) and isinstance(e.operand.value, int):
+        return -e.operand.value
     if isinstance(e, ast.BoolOp):
         if isinstance(e.op, ast.And):
             v = True
@@ -207,7 +213,7 @@ def fold_str_expr(e: ast.AST, env: dict):
             return len(fold_str_expr(e.args[0], env))
         if isinstance(e.func, ast.Attribute) and e.func.attr in _STR_METHODS and not e.keywords:
             recv = fold_str_expr(e.func.value, env)
-            if not isinstance(recv, str):
+            if not isinstance(recv, str) and not (isinstance(recv, (list, tuple)) and e.func.attr in ("count",)):
                 raise Unfoldable("method on a non-string")
             args = [fold_str_expr(a, env) for a in e.args]
             return getattr(recv, e.func.attr)(*args)
